@@ -3199,7 +3199,8 @@ Lemma tx_front : forall s mu s' r, good s -> run_tx s mu = (s', r) ->
   let t0 := new_transition s mu in
   let sA := add_ev (add_ev s EvInit) EvStart in
   (exists s1 t1 negs, s' = set_crashed s1 /\ nbase 0 2 sA t0 s1 t1 negs /\
-     mu_auto mu = true /\ ~ Forall rettrue negs /\ ordn t0 negs)
+     mu_auto mu = true /\ ~ Forall rettrue negs /\ ordn t0 negs /\
+     tx_neg sA t0 = (s1, t1, NCrash))
   \/
   exists s2 t1 negs canceled,
     nbase 0 2 sA t0 s2 t1 negs /\
@@ -3211,7 +3212,13 @@ Lemma tx_front : forall s mu s' r, good s -> run_tx s mu = (s', r) ->
                   || (has_handlers s && (mu_auto mu && Nat.eqb (length (t_target t0)) 0))) /\
     (canceled = false -> t_accepted t0 = true) /\
     (ordn t0 negs /\
-     (canceled = false -> NoDup (active s) -> negc (bindings s) (active s) t0 negs)) /\
+     (canceled = false -> NoDup (active s) -> negc (bindings s) (active s) t0 negs) /\
+     (exists s1 nr n1 n2,
+        tx_neg sA t0 = (s1, t1, nr) /\ hlog s1 = n1 ++ hlog sA /\ negs = n2 ++ n1 /\
+        keysin (fun k => HAnyEnter = k) n2 /\ (nr = NCancel -> canceled = true) /\
+        (nr = NOk -> Forall rettrue n2 ->
+         canceled = negb (t_accepted t0)
+                    || (has_handlers s && (mu_auto mu && Nat.eqb (length (t_target t1)) 0))))) /\
     (s', r) = if mu_check mu then tx_check_end mu (length (hlog s)) s2 t1 canceled
               else if negb canceled
                    then tx_apply mu (length (hlog s)) s2 (tx_retarget mu s2 t1)
@@ -3251,10 +3258,22 @@ Proof.
         apply orb_false_iff in Hc. destruct Hc as [Hy _]. apply negb_false_iff in Hy. exact Hy. }
     split; [|split; [|split; [|split; [|symmetry; exact H]]]];
       [| | |split; [apply ordn_app_rank2; [exact O1 | apply B2]|]].
-    4:{ intros Hc3 Hnd. apply negc_pad.
-        - destruct (new_transition_nodup s mu Hnd) as (N1 & N2 & N3 & N4).
-          apply (Nc1 eq_refl (F4' Hc3) N1 N2 N3 N4).
-        - eapply keysin_weaken; [|exact Kae]. intros k Hk. right. exact Hk. }
+    4:{ split.
+        { intros Hc3 Hnd. apply negc_pad.
+          - destruct (new_transition_nodup s mu Hnd) as (N1 & N2 & N3 & N4).
+            apply (Nc1 eq_refl (F4' Hc3) N1 N2 N3 N4).
+          - eapply keysin_weaken; [|exact Kae]. intros k Hk. right. exact Hk. }
+        exists s1, NOk, n1, n2. split; [reflexivity|]. split; [apply B1|]. split; [reflexivity|].
+        split; [exact Kae|]. split; [discriminate|].
+        intros _ Hall2.
+        assert (Hcc : c3 = c2).
+        { destruct D as [(Hx & _ & _)|(Hc & _ & Vs)]; [exact Hx|].
+          destruct Vs as [[Hok _]|[_ (e & rest & Hn2 & Hr & _)]].
+          - apply negb_true_iff in Hok. congruence.
+          - exfalso. rewrite Hn2 in Hall2. inversion Hall2 as [|? ? Hre Hrest].
+            unfold rettrue in Hre. congruence. }
+        rewrite Hcc. unfold c2. destruct (has_handlers s); cbn; [reflexivity|].
+        rewrite orb_false_r. reflexivity. }
     + intros Hm. destruct (V1 Hm) as [Ht Hs]. split; [exact Ht|].
       assert (Hall1 : Forall rettrue n1).
       { destruct Hs as [[_ Hx]|[Hx _]]; [exact Hx | discriminate]. }
@@ -3292,7 +3311,9 @@ Proof.
     unfold tx_anyenter in H. rewrite andb_false_r in H. rewrite Hh1 in H.
     right. exists s1, t1, n1, true.
     split; [exact B1|]. split; [|split; [|split; [discriminate
-      | split; [split; [exact O1 | intros Hx; discriminate] | symmetry; exact H]]]].
+      | split; [split; [exact O1 | split; [intros Hx; discriminate|]] | symmetry; exact H]]]].
+    3:{ exists s1, NCancel, n1, []. split; [reflexivity|]. split; [apply B1|]. split; [reflexivity|].
+        split; [constructor|]. split; [reflexivity | discriminate]. }
     + intros Hm. destruct (V1 Hm) as [Ht Hs]. split; [exact Ht|]. right. split; [reflexivity|].
       right. destruct Hs as [[Hx _]|[_ Hx]]; [discriminate | exact Hx].
     + intros Hall. destruct (A1 Hall) as [Hx _]. discriminate.
@@ -3301,7 +3322,7 @@ Proof.
     split.
     + destruct (mu_auto mu) eqn:Em; [reflexivity|].
       destruct (V1 eq_refl) as [_ [[Hx _]|[Hx _]]]; discriminate.
-    + split; [|exact O1]. intros Hall. destruct (A1 Hall) as [Hx _]. discriminate.
+    + split; [|split; [exact O1 | reflexivity]]. intros Hall. destruct (A1 Hall) as [Hx _]. discriminate.
 Qed.
 
 Lemma new_transition_sorted : forall s mu l,
@@ -3527,7 +3548,14 @@ Definition tx_outcome (s : st) (mu : mutation) (s' : st) : Prop :=
      sorted_sub (sc s) (topo s) (uniq (pst is_enter (rev negs))) /\
      (canceled = false -> NoDup (active s) ->
       negc (bindings s) (active s) (new_transition s mu) negs) /\
-     (canceled = false -> t_accepted (new_transition s mu) = true)) /\
+     (canceled = false -> t_accepted (new_transition s mu) = true) /\
+     (exists s1 t1 nr n1 n2,
+        tx_neg (add_ev (add_ev s EvInit) EvStart) (new_transition s mu) = (s1, t1, nr) /\
+        tgt1 = t_target t1 /\ hlog s1 = n1 ++ hlog s /\ negs = n2 ++ n1 /\
+        keysin (fun k => HAnyEnter = k) n2 /\ (nr = NCancel -> canceled = true) /\
+        (nr = NOk -> Forall rettrue n2 ->
+         canceled = negb (t_accepted (new_transition s mu))
+                    || (has_handlers s && (mu_auto mu && Nat.eqb (length (t_target t1)) 0))))) /\
     incl tgt1 joint /\
     (mu_auto mu = false -> tgt1 = joint /\
        ((canceled = false /\ Forall rettrue negs) \/
@@ -3537,7 +3565,9 @@ Definition tx_outcome (s : st) (mu : mutation) (s' : st) : Prop :=
                   || (has_handlers s && (mu_auto mu && Nat.eqb (length joint) 0))) /\
     ((crashed s' = true /\ txs s' = txs s /\ fins = [] /\ mu_auto mu = true /\
       ~ Forall rettrue negs /\ (no_auto (queue s) -> no_auto (queue s')) /\
-      clock s' = clock s /\ active s' = active s)
+      clock s' = clock s /\ active s' = active s /\
+      exists s1 t1, tx_neg (add_ev (add_ev s EvInit) EvStart) (new_transition s mu)
+                    = (s1, t1, NCrash))
      \/
      exists rec, rec_base s mu s' rec /\
        (not_applied s mu s' rec fins canceled \/ applied s mu s' rec fins canceled tgt1)).
@@ -3563,8 +3593,8 @@ Proof.
   intros s mu s' r G H.
   destruct (new_transition_facts s mu) as (Tm & Tb & Tcb & Tinv & Ttg & Tacc & Tex).
   destruct (tx_front _ _ _ _ G H)
-    as [(s1 & t1 & negs & -> & B & Hm & Hv & On)
-       |(s2 & t1 & negs & canceled & B & F2 & F3 & F4 & [On Nc] & E)];
+    as [(s1 & t1 & negs & -> & B & Hm & Hv & On & Ecr)
+       |(s2 & t1 & negs & canceled & B & F2 & F3 & F4 & (On & Nc & Ex) & E)];
     apply ordn_sorted_sub in On.
   - (* a panic escaped *)
     destruct B as (K & G1 & Q & T & L & En & Bd).
@@ -3572,8 +3602,19 @@ Proof.
                   sorted_sub (sc s) (topo s) (uniq (pst is_enter (rev negs))) /\
                   (true = false -> NoDup (active s) ->
                    negc (bindings s) (active s) (new_transition s mu) negs) /\
-                  (true = false -> t_accepted (new_transition s mu) = true)).
-    { split; [apply On|]. split; [apply On|]. split; intros Hx; discriminate. }
+                  (true = false -> t_accepted (new_transition s mu) = true) /\
+                  (exists s1' t1' nr n1 n2,
+        tx_neg (add_ev (add_ev s EvInit) EvStart) (new_transition s mu) = (s1', t1', nr) /\
+        t_target t1 = t_target t1' /\ hlog s1' = n1 ++ hlog s /\ negs = n2 ++ n1 /\
+        keysin (fun k => HAnyEnter = k) n2 /\ (nr = NCancel -> true = true) /\
+        (nr = NOk -> Forall rettrue n2 ->
+         true = negb (t_accepted (new_transition s mu))
+                    || (has_handlers s && (mu_auto mu && Nat.eqb (length (t_target t1')) 0))))).
+    { split; [apply On|]. split; [apply On|]. split; [intros Hx; discriminate|].
+      split; [intros Hx; discriminate|].
+      exists s1, t1, NCrash, negs, []. split; [exact Ecr|]. split; [reflexivity|].
+      split; [exact L|]. split; [reflexivity|]. split; [constructor|].
+      split; [reflexivity | discriminate]. }
     clear On. rename On' into On.
     exists negs, [], true, (t_target t1).
     split; [cbn; exact L|]. split; [apply keeps_same_cfg in K; exact K|]. split; [exact G1|].
@@ -3582,14 +3623,24 @@ Proof.
     split; [intros Hx; congruence|]. split; [intros Hx; contradiction|].
     left. split; [reflexivity|]. split; [cbn; apply (keeps_txs _ _ K)|]. split; [reflexivity|].
     split; [exact Hm|]. split; [exact Hv|]. split; [exact Q|].
-    split; [cbn; apply (keeps_clock _ _ K) | cbn; apply (keeps_active _ _ K)].
+    split; [cbn; apply (keeps_clock _ _ K)|]. split; [cbn; apply (keeps_active _ _ K)|].
+    exists s1, t1. exact Ecr.
   - destruct B as (K & G2 & Q & T & L & En & Bd).
     assert (On' : sorted_sub (sc s) (topo s) (uniq (pst is_exit (rev negs))) /\
                   sorted_sub (sc s) (topo s) (uniq (pst is_enter (rev negs))) /\
                   (canceled = false -> NoDup (active s) ->
                    negc (bindings s) (active s) (new_transition s mu) negs) /\
-                  (canceled = false -> t_accepted (new_transition s mu) = true)).
-    { split; [apply On|]. split; [apply On|]. split; [exact Nc | exact F4]. }
+                  (canceled = false -> t_accepted (new_transition s mu) = true) /\
+                  (exists s1' t1' nr n1 n2,
+        tx_neg (add_ev (add_ev s EvInit) EvStart) (new_transition s mu) = (s1', t1', nr) /\
+        t_target t1 = t_target t1' /\ hlog s1' = n1 ++ hlog s /\ negs = n2 ++ n1 /\
+        keysin (fun k => HAnyEnter = k) n2 /\ (nr = NCancel -> canceled = true) /\
+        (nr = NOk -> Forall rettrue n2 ->
+         canceled = negb (t_accepted (new_transition s mu))
+                    || (has_handlers s && (mu_auto mu && Nat.eqb (length (t_target t1')) 0))))).
+    { split; [apply On|]. split; [apply On|]. split; [exact Nc|]. split; [exact F4|].
+      destruct Ex as (s1 & nr & n1 & n2 & X1 & X2 & X3 & X4 & X5 & X6).
+      exists s1, t1, nr, n1, n2. split; [exact X1|]. split; [reflexivity|]. tauto. }
     clear On. rename On' into On.
     assert (Kc : same_cfg s s2) by (apply keeps_same_cfg in K; exact K).
     assert (Hcl : clock s2 = clock s) by apply (keeps_clock _ _ K).
@@ -3893,7 +3944,7 @@ Proof.
   intros s mu s' r G Hnd H.
   destruct (run_tx_outcome _ _ _ _ G H)
     as (negs & fins & canceled & tgt1 & _ & _ & _ & _ & _ & _ & _ & _ & _ & O).
-  destruct O as [(_ & _ & _ & _ & _ & _ & _ & Ha)|(rec & _ & [N|A])].
+  destruct O as [(_ & _ & _ & _ & _ & _ & _ & Ha & _)|(rec & _ & [N|A])].
   - rewrite Ha. exact Hnd.
   - destruct N as (_ & _ & _ & Ha & _). rewrite Ha. exact Hnd.
   - destruct A as (_ & _ & _ & Ha & _ & _ & _ & _ & _ & Hn & _). rewrite Ha. exact Hn.
@@ -4522,7 +4573,7 @@ Proof.
   intros s mu s' r rec new G Hnd Hty H L Htx Happ k Hk i.
   destruct (new_transition_facts s mu) as (Tm & Tb & _ & _ & Ttg & Tacc & Tex).
   destruct (run_tx_outcome _ _ _ _ G H)
-    as (negs & fins & canceled & tgt1 & L' & _ & _ & _ & Bn & (_ & _ & Nc & F4) & _ & A2 & _ & O).
+    as (negs & fins & canceled & tgt1 & L' & _ & _ & _ & Bn & (_ & _ & Nc & F4 & _) & _ & A2 & _ & O).
   rewrite L', app_assoc in L. apply app_inv_tail in L. subst new.
   destruct O as [(_ & Hx & _)|(rec' & Rb & O)].
   { rewrite Hx in Htx. exfalso. eapply cons_neq_self. exact Htx. }
@@ -4710,7 +4761,7 @@ Proof.
   destruct (run_tx_outcome _ _ _ _ G H)
     as (negs & fins & canceled & tgt1 & _ & C & _ & _ & _ & _ & _ & _ & _ & O).
   destruct C as (Csc & _). unfold parity. rewrite Csc.
-  destruct O as [(_ & _ & _ & _ & _ & _ & Hc & Ha)|(rec & Rb & [N|A])].
+  destruct O as [(_ & _ & _ & _ & _ & _ & Hc & Ha & _)|(rec & Rb & [N|A])].
   - rewrite Hc, Ha. split; assumption.
   - destruct N as (_ & _ & Hc & Ha & _). rewrite Hc, Ha. split; assumption.
   - destruct A as (_ & _ & _ & Ha & Hc & Hs & _ & _ & _ & Hn & _).
